@@ -8,7 +8,7 @@ arithmetic), and the suffix returns it.
 from ..oblig import GOb
 from ..symint import atom, EngineError, sprod
 from ..loopcut import LoopCut
-from ..iterative import stubbed
+from ..iterative import stubbed, make_svd_stub
 from .. import specs as SP
 from .. import gtensor as G
 
@@ -80,6 +80,22 @@ def obligations(tier):
                         return [("to_tensor(result at zero budget) ≡ to_tensor(init)", SP.cp_to_tensor(S, w2, fs2), SP.cp_to_tensor(S, I["w"], I["fs"]))]
                     add(fn, f"N={N},weights={wkind},rank={Rk},{form}", cp_setup(N, Rk, wkind != "none"), call, post,
                         dict(order=N, weights=wkind, rank=str(Rk), init_form=form), "zero-budget result represents the supplied initialisation")
+    # ---- weight absorption (CP family): every routine starts its sweeps from the output of its initialiser, so equal initialiser outputs give equal iterates
+    for N in range(2, maxN + 1):
+        for fn, init_fn in (("_cp:initialize_cp", _cp.initialize_cp), ("_constrained_cp:initialize_constrained_parafac", _cc.initialize_constrained_parafac)):
+            for Rk in (2, 3):
+                def call(I, init_fn=init_fn):
+                    S = I["_S"]
+                    a = init_fn(I["X"], I["Rk"], init=(I["w"], list(I["fs"])))
+                    absorbed = list(I["fs"][:-1]) + [S.einsum("ir,r->ir", I["fs"][-1], I["w"])]
+                    b = init_fn(I["X"], I["Rk"], init=(None, absorbed))
+                    return dict(a=(a.weights, list(a.factors)), b=(b.weights, list(b.factors)))
+                def post(S, I, r):
+                    ones = S.ones([S.shape(I["w"])[0]])
+                    return [("same starting factors from the weighted and the weight-absorbed initialisation", list(r["a"][1]), list(r["b"][1])),
+                            ("same starting weights", r["a"][0] if r["a"][0] is not None else ones, r["b"][0] if r["b"][0] is not None else ones)]
+                add(fn, f"N={N},rank={Rk}", cp_setup(N, Rk, True), call, post, dict(order=N, rank=Rk),
+                    "a start with weights and the same start with the weights absorbed into the last factor give the same starting point")
     # ====================================================================== CP family: fixed modes are never touched by a sweep
     def fixed_body(func, module, I, fixed, kwargs, extra_stubs=None):
         S = I["_S"]
@@ -108,12 +124,18 @@ def obligations(tier):
                    ("_constrained_cp:constrained_parafac", _cc.constrained_parafac, _cc, dict(return_errors=True, l2_square_reg=0.1), dict(admm=admm_stub), False)]
     for N in range(3, maxN + 1):
         for fn, func, module, kwargs, stubs, nonneg in fixed_algos:
-            for fixed in ([0], [1], [0, 1]) + (([0, 2],) if N == 4 else ()):
+            # listings that are unsorted or name the last mode: the last mode is documented as 'not supported, will not be fixed'
+            # (a warning), every other listed mode must still be returned as supplied
+            for fixed in ([0], [1], [0, 1], [1, 0], [N - 1, 0], [N - 1, 1], [0, N - 1]) + (([0, 2], [3, 1, 0]) if N == 4 else ()):
+                if N - 1 in fixed and fn != "_cp:parafac" and tier == "quick" and fixed != [N - 1, 0]:
+                    continue
                 def call(I, func=func, module=module, fixed=fixed, kwargs=kwargs, stubs=stubs):
                     return fixed_body(func, module, I, fixed, dict(kwargs), stubs)
-                def post(S, I, r, fixed=fixed, nonneg=nonneg):
+                def post(S, I, r, fixed=fixed, nonneg=nonneg, N=N, fn=fn):
                     out = []
                     for m in fixed:
+                        if m == N - 1 and fn != "_nn_cp:non_negative_parafac_hals":
+                            continue  # refused with a warning by these routines: stated separately below (known finding)
                         out.append((f"mode {m}: the sweep does not touch the fixed factor (same object before and after)", r["after"][m] is r["before"][m] if S.name == "sym" else True, True))
                         out.append((f"mode {m}: returned factor ≡ supplied factor", r["returned"][m], I["fs"][m]))
                     return out
@@ -121,7 +143,33 @@ def obligations(tier):
                 if fn in ("_cp:parafac", "_constrained_cp:constrained_parafac") and N == 3:
                     add(fn, f"N={N},fixed_modes={fixed},non-unit weights", cp_setup(N, 2, True), call, post, dict(order=N, fixed_modes=fixed, weights="symbolic", rank=2),
                         "fixed modes are returned as supplied (all sweeps)")
-    # all modes fixed: the initialisation is returned unchanged (parafac only supports this shortcut)
+    # the last mode: CP-ALS, multiplicative-update NN-CP and constrained CP refuse to fix it (documented, with a warning) because their
+    # error computation needs the last mode's MTTKRP; the property quantifies over all subsets, so the clause is stated as it is written
+    for N in range(3, maxN + 1):
+        for fn, func, module, kwargs, stubs, nonneg in fixed_algos:
+            if fn == "_nn_cp:non_negative_parafac_hals":
+                continue
+            for fixed in ([N - 1], [N - 1, 0]):
+                def call(I, func=func, module=module, fixed=fixed, kwargs=kwargs, stubs=stubs):
+                    return fixed_body(func, module, I, fixed, dict(kwargs), stubs)
+                add(fn, f"N={N},fixed_modes={fixed}", cp_setup(N, atom("R"), False), call,
+                    lambda S, I, r, N=N: [(f"mode {N - 1} (last): returned factor ≡ supplied factor", r["returned"][N - 1], I["fs"][N - 1])],
+                    dict(order=N, fixed_modes=fixed), "the last mode, when declared fixed, is returned as supplied")
+    # all modes fixed: the initialisation is returned unchanged
+    for N in range(2, maxN + 1):
+        for fn, func in [("_nn_cp:non_negative_parafac_hals", _nn.non_negative_parafac_hals), ("_cp:parafac", _cp.parafac)]:
+            for listing in ("ascending", "descending"):
+                if fn == "_cp:parafac" and listing == "ascending":
+                    continue  # below, with the tensor clause
+                def call(I, N=N, func=func, listing=listing, fn=fn):
+                    fixed = list(range(N)) if listing == "ascending" else list(range(N - 1, -1, -1))
+                    kw = dict(l2_square_reg=0.1) if "constrained" in fn else {}
+                    return tuple(func(I["X"], I["Rk"], init=(None, list(I["fs"])), fixed_modes=fixed, n_iter_max=1, **kw))
+                known = fn != "_nn_cp:non_negative_parafac_hals"
+                add(fn, f"N={N},all modes fixed,{listing} listing", cp_setup(N, atom("R"), False), call,
+                    lambda S, I, r: [("factors returned as supplied", list(r[1]), list(I["fs"])), ("tensor unchanged", SP.cp_to_tensor(S, r[0], r[1]), SP.cp_to_tensor(S, None, I["fs"]))],
+                    dict(order=N, fixed_modes="all", listing=listing),
+                    "fixing every mode returns the initialisation" if not known else "the last mode, when declared fixed, is returned as supplied")
     for N in range(2, maxN + 1):
         def call(I, N=N):
             return tuple(_cp.parafac(I["X"], I["Rk"], init=(None, list(I["fs"])), fixed_modes=list(range(N))))
@@ -139,7 +187,7 @@ def obligations(tier):
         add("_tucker:tucker", f"N={N},no fixed factors", tk_setup(N), lambda I: tuple(_tk.tucker(I["X"], list(I["r"]) if I["_S"].name == "sym" else [f.shape[1] for f in I["fs"]], n_iter_max=0, init=(I["core"], list(I["fs"])))),
             lambda S, I, r: [("to_tensor(result at zero budget) ≡ to_tensor(init)", SP.tucker_to_tensor(S, r[0], r[1]), SP.tucker_to_tensor(S, I["core"], I["fs"]))],
             dict(order=N, fixed_factors=None), "zero-budget result represents the supplied initialisation")
-        for fixed in ([0], [N - 1]) + (([0, 1],) if N >= 3 else ()):
+        for fixed in ([0], [N - 1]) + (([0, 1], [1, 0], [N - 1, 0]) if N >= 3 else ()):
             def call(I, fixed=fixed, N=N):
                 from .. import expr as X
                 S = I["_S"]
@@ -177,6 +225,77 @@ def obligations(tier):
                      SP.parafac2_slice(S, I["w"], I["A"], I["B"], I["Cc"], I["P"][i], i)) for i in range(nI)]
         add("_parafac2:parafac2", f"slices={nI},Parafac2 init", setup, call, post, dict(n_slices=nI, init="parafac2 tuple"), "zero-budget result represents the supplied initialisation",
             assumptions=lambda I: [I["R"] <= I["K"]])
+    # ====================================================================== weight absorption: an initialisation with weights and the same one with the
+    # weights absorbed into a factor drive the sweep identically.  Two loop-cut bodies are run from the two states; every dependency call (projection SVDs,
+    # inner CP solver) must receive equal arguments in both runs - then, the dependencies being functions, the iterates coincide (checked too, with the
+    # second run's dependency results identified with the first's).
+    class Shared:
+        def __init__(self, fn):
+            self.fn, self.runs, self.cur, self.cache = fn, [[], []], 0, []
+        def __call__(self, *a, **k):
+            i = len(self.runs[self.cur])
+            self.runs[self.cur].append((a, k) if self.sym else __import__('copy').deepcopy((a, k)))
+            if self.cur == 1 and i < len(self.cache) and self.cache[i][0]:
+                return self.cache[i][1]
+            out = self.fn(*a, **k)
+            if self.cur == 0:
+                self.cache.append((self.sym, out))
+            return out
+    for nI in (2,) + ((3,) if tier == "thorough" else ()):
+        def setup(S, nI=nI):
+            K, R = atom("K"), atom("R")
+            return dict(_S=S, Xs=[S.input(f"X{i}", [atom(f"J{i}"), K]) for i in range(nI)], w=S.input("w", [R]), A=S.input("A", [nI, R]), B=S.input("B", [R, R]),
+                        Cc=S.input("Cm", [K, R]), P=[S.input(f"P{i}", [atom(f"J{i}"), R]) for i in range(nI)], R=R, K=K)
+        def call(I, nI=nI):
+            from .c03 import _noval
+            S = I["_S"]
+            sym = S.name == "sym"
+            rank = I["R"] if sym else I["A"].shape[1]
+            real_svd = make_svd_stub(S, None, square_u=True)
+            real_parafac = _p2.parafac
+            def inner(X, rank, init=None, **kw):
+                if sym:
+                    return CPTensor((None, [G.opaque_tensor("INNER", list(f.shape), f.dtype) for f in init[1]]))
+                out = real_parafac(X, rank, init=init, **kw)
+                if cp_sh.cur == 0:
+                    for f in out[1]:
+                        S.record("INNER", f)
+                return out
+            svd_sh, cp_sh = Shared(real_svd), Shared(inner)
+            svd_sh.sym = cp_sh.sym = sym
+            Bw = S.einsum("ir,r->ir", I["B"], I["w"])
+            ones = S.ones([S.shape(I["w"])[0]])
+            states = [(I["w"], [I["A"], I["B"], I["Cc"]]), (ones, [I["A"], Bw, I["Cc"]])]
+            finals = []
+            def go():
+                cut = LoopCut(_p2.parafac2)
+                with stubbed(_p2, svd_interface=svd_sh, parafac=cp_sh, _validate_parafac2_tensor=p2t._validate_parafac2_tensor,
+                             initialize_decomposition=lambda *a, **k: (I["w"], [I["A"], I["B"], I["Cc"]], list(I["P"]))):
+                    st0 = cut.prefix(list(I["Xs"]), rank, return_errors=True, tol=0)
+                    for run, (w, fs) in enumerate(states):
+                        svd_sh.cur = cp_sh.cur = run
+                        st = dict(st0)
+                        st["weights"], st["factors"], st["rec_errors"] = w, list(fs), []
+                        kind, st2 = cut.body(st, 0)
+                        finals.append((st2["weights"], list(st2["factors"]), list(st2["projections"])))
+                return dict(finals=finals, svd=svd_sh.runs, cp=cp_sh.runs)
+            return _noval(p2t, go)
+        def post(S, I, r, nI=nI):
+            out = [("same number of projection SVDs in both runs", len(r["svd"][0]), len(r["svd"][1])), ("same number of inner CP calls in both runs", len(r["cp"][0]), len(r["cp"][1])),
+                   ("one SVD per slice", len(r["svd"][0]), nI)]
+            for i, ((a0, k0), (a1, k1)) in enumerate(zip(*r["svd"])):
+                out.append((f"projection SVD {i} receives the same matrix from the weighted and the weight-absorbed start", a0[0], a1[0]))
+            for i, ((a0, k0), (a1, k1)) in enumerate(zip(*r["cp"])):
+                out.append((f"inner CP call {i}: same projected tensor", a0[0], a1[0]))
+                out.append((f"inner CP call {i}: inner initialisation represents the same tensor", SP.cp_to_tensor(S, k0["init"][0], k0["init"][1]), SP.cp_to_tensor(S, k1["init"][0], k1["init"][1])))
+                out.append((f"inner CP call {i}: same inner initial factors", list(k0["init"][1]), list(k1["init"][1])))
+                out.append((f"inner CP call {i}: same inner initial weights", k0["init"][0], k1["init"][0]))
+            (w0, f0, p0), (w1, f1, p1) = r["finals"]
+            for i in range(nI):
+                out.append((f"slice {i} of the next iterate is the same from both starts", SP.parafac2_slice(S, w0, f0[0], f0[1], f0[2], p0[i], i), SP.parafac2_slice(S, w1, f1[0], f1[1], f1[2], p1[i], i)))
+            return out
+        add("_parafac2:parafac2", f"slices={nI},one sweep", setup, call, post, dict(n_slices=nI, sweep=1),
+            "a start with weights and the same start with the weights absorbed into B give the same next iterate", assumptions=lambda I: [I["R"] <= I["K"]] + [I["R"] <= atom(f"J{i}") for i in range(len(I["Xs"]))])
     return obs
 
 
